@@ -3,7 +3,8 @@ from ..kengine import H
 
 ID = "C18"
 MODULE = "c18"
-ENGINE = "K"
+ENGINE = "KM"
+TECHNIQUE = "Base64: Kani/CBMC bounded model checking of the compiled code; dates: symbolic execution of the MIR with cut-point invariants -> z3 (integer arithmetic); counterexamples replayed natively"
 
 META = {
     "functions_encoded": [
@@ -46,3 +47,82 @@ def harnesses():
     for h in hs:
         h.module = MODULE
     return hs
+
+
+def run(tier, run_k):
+    """Base64 by engine K, dates by engine M; one evidence file."""
+    import json, os, time
+    from ..common import log, write_evidence, REPLAY_DIR, git_head, REPO, repo_dirty, WORK
+    from .. import mengine, kengine
+    from . import c18_date
+    k = run_k()
+    t0 = k["t0"]
+    rc = k["rc"]
+    cov = k["cov"]
+    assumptions = k["assumptions"]
+    nviol = k["violations"]
+    # ---- dates (engine M) in the same work dir
+    from mirsym.dump import dump_mir
+    work = os.path.join(WORK, ID)
+    try:
+        mir, dt = dump_mir("humphrey", work)
+        d = c18_date.run_part(tier, work, mir)
+    except Exception as e:
+        log("UNDISCHARGED: dates — %s" % str(e)[:500])
+        d = {"results": [], "violations": [], "machinery": [], "undischarged": [{"segment": "all", "why": str(e)[:300]}], "validation": {}}
+    for r in d["violations"]:
+        path = os.path.join(REPLAY_DIR, "C18-date.json")
+        os.makedirs(REPLAY_DIR, exist_ok=True)
+        with open(path, "w") as f:
+            json.dump({"property": ID, "engine": "M", "kind": "date", "ts": r["replay"]["ts"], "native_dev": r["replay"]["native_dev"], "native_release": r["replay"]["native_release"],
+                       "expected": r["replay"]["expected"], "failed": r["cex"]["check"], "how": "./check C18 --replay " + path}, f, indent=1)
+        log("VIOLATION property=%s replay=%s" % (ID, path))
+        log("   DateTime::from(%d) = [%s] natively, the Gregorian calendar says [%s] (segment %s: %s)" % (r["replay"]["ts"], r["replay"]["native_dev"], r["replay"]["expected"], r["segment"], r["cex"]["check"]))
+        rc = 1
+        nviol += 1
+        break
+    for m in d["machinery"]:
+        log("MACHINERY-ERROR: dates — " + m)
+        rc = rc or 2
+    for r in d["undischarged"]:
+        log("UNDISCHARGED: date segment %s — %s" % (r.get("segment"), r.get("why", r.get("verdict"))))
+    okd = [r for r in d["results"] if r["verdict"] == "unsat"]
+    log("   dates: %d/4 cut-point segments discharged (%s), %d z3 checks, translator validation on %s inputs" % (
+        len(okd), ", ".join("%s %.1fs" % (r["segment"], r["wall_s"]) for r in d["results"]), sum(r.get("n_checks", 0) for r in d["results"]), d["validation"].get("inputs")))
+    cov["evaluations"] += len(d["results"])
+    cov["distinct_nontrivial"] += len(okd)
+    cov["obligations"] = cov.get("obligations", 0) + len(d["results"])
+    cov["discharged"] = cov.get("discharged", 0) + len(okd)
+    cov["dates"] = {
+        "function_encoded": "humphrey/src/http/date.rs: <DateTime as From<i64>>::from (MIR of the current working tree)",
+        "range": "every timestamp 0..=253402300799 (1970-01-01 .. 9999-12-31T23:59:59Z)",
+        "segments": [{k: r.get(k) for k in ("segment", "verdict", "paths", "n_checks", "symex_s", "solver_s", "cuts", "why")} for r in d["results"]],
+        "cut_points": "cut1 = join after the first two writes to `days`; cut2 = join after the first two writes to `remaining_days`; cut3 = head of the month loop — located by post-dominator analysis of the current MIR",
+        "invariants": "I1: days*86400+rs = ts-951868800, 0<=rs<86400; I2: days = y400*146097+rd, 0<=rd<146097, weekday = (ts div 86400 + 4) mod 7; I3: rd = 365e + e/4 - e/100 + rd2 with e = year-2000-400*y400 in 0..399, 0 <= rd2 <= 364+leap(e+1); final: days_from_civil(Y,M,D)*86400+h*3600+m*60+s = ts, valid ranges, no arithmetic panic, no truncating cast",
+        "translator_validation": d["validation"],
+        "violations": [r["replay"] for r in d["violations"]],
+        "outside": "DateTime::to_string (format!-based IMF-fixdate layout, DAYS/MONTHS name tables), timestamps outside 1970..9999",
+    }
+    cov["solver_time_s"] = round(cov.get("solver_time_s", 0) + sum(r.get("solver_s", 0) for r in d["results"]), 2)
+    cov["functions_encoded"] = list(cov.get("functions_encoded", [])) + [cov["dates"]["function_encoded"]]
+    cov["engines"]["mirsym"] = "own MIR symbolic executor (/verif/mirsym) + z3 5.1.0"
+    assumptions = assumptions + ["dates: Hinnant's days_from_civil is the calendar specification; z3's integer arithmetic is sound; MIR text printed by rustc nightly reflects the compiled function"]
+    write_evidence(ID, tier, cov, assumptions, time.time() - t0, nviol)
+    log("== %s: %d/%d obligations discharged (Base64 K + dates M), %d violation(s); %.0fs wall" % (ID, cov["discharged"], cov["obligations"], nviol, time.time() - t0))
+    return rc
+
+
+def replay(d, path):
+    from ..common import log
+    from .. import mengine, kengine
+    from . import c18_date
+    mengine.setup(ID)
+    kengine.write_lists({})
+    exe = mengine.build_mtool("debug")
+    got = mengine.native_eval(exe, ["date %d" % d["ts"]])[0]
+    want = c18_date.py_ref(d["ts"])
+    log("DateTime::from(%d) = [%s], calendar [%s]" % (d["ts"], got, want))
+    if got != want:
+        log("VIOLATION property=%s replay=%s" % (ID, path))
+        return 1
+    return 0
